@@ -1414,6 +1414,36 @@ example : ((⟨qP, some qP.recip⟩ : CBox ℚ).set qThr (.lengths ⟨2, -3, 4, 
 
 end audit_examples
 
+/-- **faceMargin_le_iff**: the exemption "points closer than the bound to a face" granted by the comparison with the real code is
+    exactly that: the margin the driver reports for a point is at most `ε` iff one of its relative coordinates is within `ε` of
+    `0` or of `1` — no other point is exempted from the inside / outside clause. -/
+theorem faceMargin_le_iff (s : V3 K) (ε : K) :
+    faceMargin s ≤ ε ↔ (|s.x| ≤ ε ∨ |1 - s.x| ≤ ε ∨ |s.y| ≤ ε ∨ |1 - s.y| ≤ ε ∨ |s.z| ≤ ε ∨ |1 - s.z| ≤ ε) := by
+  simp only [faceMargin, minK_eq_min, absK_eq_abs, min_le_iff]
+  tauto
+
+/-- a point with positive margin is strictly inside or strictly outside: boundary included / excluded give the same answer. -/
+theorem faceMargin_pos_decides (s : V3 K) (h : 0 < faceMargin s) : RelIn s ↔ RelInStrict s := by
+  have h' : ¬ faceMargin s ≤ 0 := not_le.mpr h
+  rw [faceMargin_le_iff] at h'
+  simp only [abs_nonpos_iff, not_or, sub_eq_zero] at h'
+  obtain ⟨h1, h2, h3, h4, h5, h6⟩ := h'
+  unfold RelIn RelInStrict
+  constructor
+  · rintro ⟨a1, a2, a3, a4, a5, a6⟩
+    exact ⟨lt_of_le_of_ne a1 (Ne.symm h1), lt_of_le_of_ne a2 (fun e => h2 e.symm), lt_of_le_of_ne a3 (Ne.symm h3),
+      lt_of_le_of_ne a4 (fun e => h4 e.symm), lt_of_le_of_ne a5 (Ne.symm h5), lt_of_le_of_ne a6 (fun e => h6 e.symm)⟩
+  · rintro ⟨a1, a2, a3, a4, a5, a6⟩
+    exact ⟨a1.le, a2.le, a3.le, a4.le, a5.le, a6.le⟩
+
+example : faceMargin (⟨1/4, 9/10, 1/2⟩ : V3 ℚ) = 1/10 ∧ faceMargin (⟨1/4, 1, 1/2⟩ : V3 ℚ) = 0 ∧ faceMargin (⟨-1/8, 3, 1/2⟩ : V3 ℚ) = 1/8 := by
+  decide +kernel
+example : RelIn (⟨1/4, 9/10, 1/2⟩ : V3 ℚ) ↔ RelInStrict (⟨1/4, 9/10, 1/2⟩ : V3 ℚ) := faceMargin_pos_decides _ (by decide +kernel)
+
+/-- the threshold the driver runs the model with (the double nearest to the literal `1e-9` of the source) meets the hypotheses
+    `0 ≤ thr`, `thr < 1` of the clean-up theorems. -/
+example : (0 : ℚ) ≤ mkRat atolNum atolDen ∧ mkRat atolNum atolDen < 1 := by decide +kernel
+
 /-- **abc_getters_spec**: "the reported lengths and angles are those of the vectors", in one statement about what the six getters
     return for a non-degenerate cell: `a b c` are the positive roots of the squared lengths of the rows, `alpha beta gamma` lie
     strictly between 0 and 180 degrees and their cosines times the two lengths are the inner products of the rows (rows 1-2, 0-2,
